@@ -9,6 +9,8 @@ import (
 	"github.com/xuperchain/xupercore/bcs/ledger/xledger/state"
 	sctx "github.com/xuperchain/xupercore/bcs/ledger/xledger/state/context"
 	pb "github.com/xuperchain/xupercore/bcs/ledger/xledger/xldgpb"
+	aclBase "github.com/xuperchain/xupercore/kernel/permission/acl/base"
+	cryptoBase "github.com/xuperchain/xupercore/lib/crypto/client/base"
 	"github.com/xuperchain/xupercore/lib/timer"
 	"github.com/xuperchain/xupercore/protos"
 	"github.com/xuperchain/xupercore/zzverif/vrt/vcrypto"
@@ -22,6 +24,20 @@ func (e *Env) NewState(name string) *state.State {
 		Ledger: e.L, Crypt: &vcrypto.Stub{}}
 	c.XLog = vlog.Nop{}
 	c.Timer = timer.NewXTimer()
+	s, err := state.NewState(c)
+	if err != nil {
+		panic("vkit: NewState: " + err.Error())
+	}
+	return s
+}
+
+// NewStateWith is NewState with a harness-supplied crypto client and ACL manager.
+func (e *Env) NewStateWith(name string, crypt cryptoBase.CryptoClient, aclMgr aclBase.AclManager) *state.State {
+	c := &sctx.StateCtx{EnvCfg: e.EnvCfg, LedgerCfg: &config.XLedgerConf{KVEngineType: "verifmem", StorageType: "single", Utxo: config.UtxoConfig{CacheSize: 1000, TmpLockSeconds: 60}}, BCName: name,
+		Ledger: e.L, Crypt: crypt}
+	c.XLog = vlog.Nop{}
+	c.Timer = timer.NewXTimer()
+	c.AclMgr = aclMgr
 	s, err := state.NewState(c)
 	if err != nil {
 		panic("vkit: NewState: " + err.Error())
